@@ -1,5 +1,5 @@
 Require Extraction.
 Require Import ExtrOcamlBasic.
 From LH Require Import Base.Bytes Base.Res Model.Lexer Model.Ast Model.Parser Model.Number Spec.LuaNumeral Model.LuaFront.
-Extraction "c03model.ml" extract_anchor tk_code lex_all parse_tokens fuel_of_tokens parse_bytes flagged classify_number classify_tok
+Extraction "c03model.ml" extract_anchor tk_code fx_deployed lex_all parse_tokens fuel_of_tokens parse_bytes flagged classify_number classify_tok
   spec_value num_clean to_lower trim_space dev_short_junk dev_hex_one_junk dev_hex_cut.
